@@ -41,15 +41,21 @@ def Pc.isDep : Pc → Bool
 /-- neither: nothing is required of the gate there -/
 def Pc.isOther (pc : Pc) : Bool := !pc.isLaunch && !pc.isDep
 
+/-- past the dependency and launch phases for good: neither phase, and not the entry label -/
+def Pc.isTail (pc : Pc) : Bool := pc.isOther && !(match pc with | .begin => true | _ => false)
+
+theorem tail_other {pc : Pc} (h : pc.isTail = true) : pc.isOther = true := by
+  unfold Pc.isTail at h; exact (Bool.and_eq_true_iff.mp h).1
+
 theorem pc_setPc (s : Sys) (t : Tid) (pc : Pc) (h : t < s.threads.length) : ((s.setPc t pc).thr t).pc = pc :=
   thr_setPc_self s t pc h
 
 /-- after `gotoCleanup`, `stopReturn`, `sdReturn`, `sdSeqNext`, `gotoStop`: a label outside both phases -/
-theorem gotoCleanup_other (s : Sys) (t : Tid) (h : t < s.threads.length) : ((gotoCleanup s t).thr t).pc.isOther = true := by
+theorem gotoCleanup_other (s : Sys) (t : Tid) (h : t < s.threads.length) : ((gotoCleanup s t).thr t).pc.isTail = true := by
   unfold gotoCleanup; rw [pc_setPc _ _ _ (by simpa using h)]; rfl
 
 theorem gotoStop_other (s : Sys) (t : Tid) (i cr k) (h : t < s.threads.length) :
-    ((gotoStop s t i cr k).thr t).pc.isOther = true := by
+    ((gotoStop s t i cr k).thr t).pc.isTail = true := by
   unfold gotoStop; rw [pc_setPc _ _ _ (by simpa using h)]; rfl
 
 theorem spawn_thr_lt (s : Sys) (k : Kind) (t : Tid) (h : t < s.threads.length) : (s.spawn k).thr t = s.thr t := by
@@ -57,14 +63,14 @@ theorem spawn_thr_lt (s : Sys) (k : Kind) (t : Tid) (h : t < s.threads.length) :
   simp [List.getD_eq_getElem?_getD, List.getElem?_append_left h]
 
 theorem sdSeqNext_other (s : Sys) (t : Tid) (rest k) (h : t < s.threads.length) :
-    ((sdSeqNext s t rest k).thr t).pc.isOther = true := by
+    ((sdSeqNext s t rest k).thr t).pc.isTail = true := by
   unfold sdSeqNext
   cases rest with
   | nil => simp only; rw [pc_setPc _ _ _ h]; rfl
   | cons i r => exact gotoStop_other _ _ _ _ _ h
 
 theorem stopReturn_other (s : Sys) (t : Tid) (k : StopK) (h : t < s.threads.length) :
-    ((stopReturn s t k).thr t).pc.isOther = true := by
+    ((stopReturn s t k).thr t).pc.isTail = true := by
   unfold stopReturn
   cases k with
   | apiStop => simp only; split <;> (rw [pc_setPc _ _ _ (by simpa using h)]; rfl)
@@ -76,7 +82,7 @@ theorem stopReturn_other (s : Sys) (t : Tid) (k : StopK) (h : t < s.threads.leng
   | probe => simp only; rw [pc_setPc _ _ _ h]; rfl
 
 theorem sdReturn_other (s : Sys) (t : Tid) (k : SdK) (h : t < s.threads.length) :
-    ((sdReturn s t k).thr t).pc.isOther = true := by
+    ((sdReturn s t k).thr t).pc.isTail = true := by
   unfold sdReturn
   cases k with
   | api => simp only; split <;> (rw [pc_setPc _ _ _ (by simpa using h)]; rfl)
@@ -86,21 +92,21 @@ theorem sdReturn_other (s : Sys) (t : Tid) (k : SdK) (h : t < s.threads.length) 
 /-! ### the stop / shutdown arms (run on whatever thread called them) end outside both phases -/
 
 theorem armStopEnter_other (s : Sys) (t i cr k) (h : t < s.threads.length) :
-    ((armStopEnter s t i cr k).thr t).pc.isOther = true := by
+    ((armStopEnter s t i cr k).thr t).pc.isTail = true := by
   unfold armStopEnter; split <;> (rw [pc_setPc _ _ _ h]; rfl)
 
 theorem armStopNotRunning_other (s : Sys) (t i k) (h : t < s.threads.length) :
-    ((armStopNotRunning s t i k).thr t).pc.isOther = true := by
+    ((armStopNotRunning s t i k).thr t).pc.isTail = true := by
   unfold armStopNotRunning
   simp only
   split <;> exact stopReturn_other _ _ _ (by simpa using h)
 
 theorem armStopChecked_other (s : Sys) (t i cr k) (h : t < s.threads.length) :
-    ((armStopChecked s t i cr k).thr t).pc.isOther = true := by
+    ((armStopChecked s t i cr k).thr t).pc.isTail = true := by
   unfold armStopChecked; rw [pc_setPc _ _ _ (by simpa using h)]; rfl
 
 theorem armStopMarked_other (s : Sys) (t i cr k) (h : t < s.threads.length) :
-    ((armStopMarked s t i cr k).thr t).pc.isOther = true := by
+    ((armStopMarked s t i cr k).thr t).pc.isTail = true := by
   unfold armStopMarked
   simp only
   split
@@ -110,7 +116,7 @@ theorem armStopMarked_other (s : Sys) (t i cr k) (h : t < s.threads.length) :
     · exact stopReturn_other _ _ _ (by simpa using h)
 
 theorem armStopWaitKill_other (s : Sys) (t i k) (h : t < s.threads.length) :
-    ((armStopWaitKill s t i k).thr t).pc.isOther = true := by
+    ((armStopWaitKill s t i k).thr t).pc.isTail = true := by
   unfold armStopWaitKill
   split <;> exact stopReturn_other _ _ _ (by simpa using h)
 
@@ -121,13 +127,13 @@ theorem foldl_setInst_threads (l : List IId) (f : Inst → Inst) (s : Sys) :
   | cons a r ih => simp only [List.foldl_cons]; rw [ih]; rfl
 
 theorem sdBody_other (s : Sys) (t h k) (ht : t < s.threads.length) :
-    ((sdBody s t h k).thr t).pc.isOther = true := by
+    ((sdBody s t h k).thr t).pc.isTail = true := by
   unfold sdBody
   simp only
   rw [pc_setPc _ _ _ (by rw [foldl_setInst_threads]; simpa using ht)]; rfl
 
 theorem armSdEnter_other (s : Sys) (t h k) (ht : t < s.threads.length) :
-    ((armSdEnter s t h k).thr t).pc.isOther = true := by
+    ((armSdEnter s t h k).thr t).pc.isTail = true := by
   unfold armSdEnter
   split
   · exact sdBody_other _ _ _ _ ht
@@ -149,7 +155,7 @@ theorem foldl_spawn_thr (l : List IId) (mk : IId → Kind) (g : Sys → Sys) (hg
     unfold Sys.thr; rw [hg]
 
 theorem armSdPrepared_other (s : Sys) (t order k) (ht : t < s.threads.length) :
-    ((armSdPrepared s t order k).thr t).pc.isOther = true := by
+    ((armSdPrepared s t order k).thr t).pc.isTail = true := by
   unfold armSdPrepared
   split
   · simp only
@@ -160,23 +166,23 @@ theorem armSdPrepared_other (s : Sys) (t order k) (ht : t < s.threads.length) :
 /-! ### the arms of a process thread outside the dependency phase -/
 
 theorem armProcSkipped_other (s : Sys) (t i) (h : t < s.threads.length) :
-    ((armProcSkipped s t i).thr t).pc.isOther = true := by
+    ((armProcSkipped s t i).thr t).pc.isTail = true := by
   unfold armProcSkipped; split
   · rw [pc_setPc _ _ _ (by simpa using h)]; rfl
   · exact gotoCleanup_other _ _ h
 
 theorem armProcRan_other (s : Sys) (t i c) (h : t < s.threads.length) :
-    ((armProcRan s t i c).thr t).pc.isOther = true := by
+    ((armProcRan s t i c).thr t).pc.isTail = true := by
   unfold armProcRan; rw [pc_setPc _ _ _ (by exact h)]; rfl
 
 theorem armProcDoneAdded_other (s : Sys) (t i c) (h : t < s.threads.length) :
-    ((armProcDoneAdded s t i c).thr t).pc.isOther = true := by
+    ((armProcDoneAdded s t i c).thr t).pc.isTail = true := by
   unfold armProcDoneAdded; simp only; split
   · rw [pc_setPc _ _ _ (by simpa using h)]; rfl
   · exact gotoCleanup_other _ _ h
 
 theorem armLockCleanup_other (s : Sys) (t i) (h : t < s.threads.length) :
-    ((armLockCleanup s t i).thr t).pc.isOther = true := by
+    ((armLockCleanup s t i).thr t).pc.isTail = true := by
   unfold armLockCleanup; split <;> (rw [pc_setPc _ _ _ (by exact h)]; rfl)
 
 /-- a launch-phase arm stays in the launch phase or leaves both phases -/
@@ -301,7 +307,7 @@ theorem stepThread_proc (s : Sys) (t : Tid) (h : Hints) (i : IId) (hk : (s.thr t
   cases hpc : (s.thr t).pc <;> simp_all [Pc.isStopSd]
 
 theorem stepThread_stopSd_other (s : Sys) (t : Tid) (h : Hints) (ht : t < s.threads.length)
-    (hp : (s.thr t).pc.isStopSd = true) : ((stepThread s t h).thr t).pc.isOther = true := by
+    (hp : (s.thr t).pc.isStopSd = true) : ((stepThread s t h).thr t).pc.isTail = true := by
   unfold stepThread
   simp only
   cases hpc : (s.thr t).pc <;> simp_all [Pc.isStopSd]
@@ -484,7 +490,7 @@ theorem pass_req (s : Sys) (t i d : IId) (c : Cond) (pc : Pc) (rest) (deps : Lis
     · simp only [setPc_gate, hg]; rw [e1.1]; exact List.mem_cons_of_mem _ e2
     · simp only [setPc_gate, hg]; rw [← e1.2]; exact List.mem_cons_self ..
 
-theorem doSkip_other (s : Sys) (t i) (ht : t < s.threads.length) : ((doSkip s t i).thr t).pc.isOther = true := by
+theorem doSkip_other (s : Sys) (t i) (ht : t < s.threads.length) : ((doSkip s t i).thr t).pc.isTail = true := by
   unfold doSkip; rw [pc_setPc _ _ _ (by simpa using ht)]; rfl
 
 /-! ### one step of a process thread keeps the demand of its label -/
@@ -542,7 +548,7 @@ theorem stepProc_req (s : Sys) (t : Tid) (i : IId) (h : Hints) (deps : List (Nam
     rw [hpc] at hr hw
     unfold armWaitDone
     split
-    · exact other _ (doSkip_other s t i ht)
+    · exact other _ (tail_other (doSkip_other s t i ht))
     · refine pass_req s t i d _ (.waitDone d ok rest) rest deps ht ?_ rfl rfl rfl hr
       simp only [WaitOK] at hw
       cases ok <;> simp [latchB, hw]
@@ -554,7 +560,7 @@ theorem stepProc_req (s : Sys) (t : Tid) (i : IId) (h : Hints) (deps : List (Nam
     · refine pass_req s t i d .healthy (.waitReady d rest) rest deps ht ?_ rfl rfl rfl hr
       simp only [WaitOK] at hw
       simp [latchB, hw]
-    · exact other _ (doSkip_other s t i ht)
+    · exact other _ (tail_other (doSkip_other s t i ht))
   | waitLogReady d rest =>
     simp only [stepProc]
     rw [hpc] at hr hw
@@ -563,7 +569,7 @@ theorem stepProc_req (s : Sys) (t : Tid) (i : IId) (h : Hints) (deps : List (Nam
     · refine pass_req s t i d .logReady (.waitLogReady d rest) rest deps ht ?_ rfl rfl rfl hr
       simp only [WaitOK] at hw
       simp [latchB, hw]
-    · exact other _ (doSkip_other s t i ht)
+    · exact other _ (tail_other (doSkip_other s t i ht))
   | waitStarted d rest =>
     simp only [stepProc]
     rw [hpc] at hr hw
@@ -571,7 +577,7 @@ theorem stepProc_req (s : Sys) (t : Tid) (i : IId) (h : Hints) (deps : List (Nam
     simp only [WaitOK] at hw
     simp only [latchB, Bool.or_eq_true]
     exact hw
-  | procSkipped => simp only [stepProc]; exact other _ (armProcSkipped_other s t i ht)
+  | procSkipped => simp only [stepProc]; exact other _ (tail_other (armProcSkipped_other s t i ht))
   | runEnter =>
     simp only [stepProc]
     rw [hpc] at hle
@@ -596,9 +602,9 @@ theorem stepProc_req (s : Sys) (t : Tid) (i : IId) (h : Hints) (deps : List (Nam
     simp only [stepProc]
     rw [hpc] at hle
     exact launch (by rw [hpc]; rfl) _ (by simpa [stepProc] using hle) (doLaunch_flow s t i ht)
-  | procRan c => simp only [stepProc]; exact other _ (armProcRan_other s t i c ht)
-  | procDoneAdded c => simp only [stepProc]; exact other _ (armProcDoneAdded_other s t i c ht)
-  | lockCleanup => simp only [stepProc]; exact other _ (armLockCleanup_other s t i ht)
+  | procRan c => simp only [stepProc]; exact other _ (tail_other (armProcRan_other s t i c ht))
+  | procDoneAdded c => simp only [stepProc]; exact other _ (tail_other (armProcDoneAdded_other s t i c ht))
+  | lockCleanup => simp only [stepProc]; exact other _ (tail_other (armLockCleanup_other s t i ht))
   | _ =>
     -- labels a process thread never stands at: `stepProc` leaves the state as it is
     simp only [stepProc]
@@ -657,7 +663,7 @@ theorem stepThread_inv (s : Sys) (t : Tid) (h : Hints) (g : GateInv s) (ht : t <
     refine ⟨Nat.lt_of_lt_of_le hi hle.len, ?_⟩
     rw [icfg_mono hle hi]
     by_cases hss : (s.thr u).pc.isStopSd = true
-    · exact req_other _ _ _ _ (stepThread_stopSd_other s u h ht hss)
+    · exact req_other _ _ _ _ (tail_other (stepThread_stopSd_other s u h ht hss))
     · have hss' : (s.thr u).pc.isStopSd = false := by simpa using hss
       have e := stepThread_proc s u h i hk hss'
       rw [e]
@@ -788,5 +794,88 @@ theorem reach_gateInv (gr : Gran) (o : Bool) (cfgs : List Cfg) {s : Sys} (h : Re
   induction h with
   | init => exact init_inv gr o cfgs
   | step c hh _ ih => exact step_inv _ c hh ih
+
+/-! ### once past both phases, a process thread never comes back (skipped = never launched) -/
+
+theorem stepProc_tail (s : Sys) (t : Tid) (i : IId) (h : Hints) (ht : t < s.threads.length)
+    (hp : (s.thr t).pc.isTail = true) : ((stepProc s t i h (s.thr t).pc).thr t).pc.isTail = true := by
+  cases hpc : (s.thr t).pc with
+  | procSkipped => simp only [stepProc]; exact armProcSkipped_other s t i ht
+  | procRan c => simp only [stepProc]; exact armProcRan_other s t i c ht
+  | procDoneAdded c => simp only [stepProc]; exact armProcDoneAdded_other s t i c ht
+  | lockCleanup => simp only [stepProc]; exact armLockCleanup_other s t i ht
+  | begin => rw [hpc] at hp; cases hp
+  | depNext _ => rw [hpc] at hp; cases hp
+  | lockDep _ _ _ => rw [hpc] at hp; cases hp
+  | depLookup _ _ _ => rw [hpc] at hp; cases hp
+  | waitDone _ _ _ => rw [hpc] at hp; cases hp
+  | waitReady _ _ => rw [hpc] at hp; cases hp
+  | waitLogReady _ _ => rw [hpc] at hp; cases hp
+  | waitStarted _ _ => rw [hpc] at hp; cases hp
+  | runEnter => rw [hpc] at hp; cases hp
+  | runChecked => rw [hpc] at hp; cases hp
+  | cmdWait => rw [hpc] at hp; cases hp
+  | runExited => rw [hpc] at hp; cases hp
+  | backoff => rw [hpc] at hp; cases hp
+  | backoffElapsed => rw [hpc] at hp; cases hp
+  | _ => simp only [stepProc]; rw [hpc] at hp; rw [hpc]; exact hp
+
+theorem stepThread_tail (s : Sys) (t : Tid) (h : Hints) (i : IId) (ht : t < s.threads.length)
+    (hk : (s.thr t).kind = .proc i) (hp : (s.thr t).pc.isTail = true) :
+    ((stepThread s t h).thr t).pc.isTail = true := by
+  by_cases hss : (s.thr t).pc.isStopSd = true
+  · exact stepThread_stopSd_other s t h ht hss
+  · rw [stepThread_proc s t h i hk (by simpa using hss)]
+    exact stepProc_tail s t i h ht hp
+
+theorem runThread_tail (s : Sys) (t : Tid) (h : Hints) (fuel : Nat) (i : IId) (ht : t < s.threads.length)
+    (hk : (s.thr t).kind = .proc i) (hp : (s.thr t).pc.isTail = true) :
+    ((runThread s t h fuel).thr t).kind = .proc i ∧ ((runThread s t h fuel).thr t).pc.isTail = true := by
+  induction fuel generalizing s with
+  | zero => exact ⟨hk, hp⟩
+  | succ fuel ih =>
+    unfold runThread
+    simp only
+    have hle := stepThread_le s t h
+    have hk1 : ((stepThread s t h).thr t).kind = .proc i := by
+      rcases hle.tkind with e | e
+      · rw [e]; exact hk
+      · exact absurd ht (Nat.not_lt.mpr e)
+    have hp1 := stepThread_tail s t h i ht hk hp
+    split
+    · exact ⟨hk1, hp1⟩
+    · split
+      · exact ⟨hk1, hp1⟩
+      · exact ih _ (Nat.lt_of_lt_of_le ht hle.tlen) hk1 hp1
+
+/-- one step of the system, whoever takes it -/
+theorem step_tail (s : Sys) (c : Choice) (h : Hints) (t : Tid) (i : IId) (ht : t < s.threads.length)
+    (hk : (s.thr t).kind = .proc i) (hp : (s.thr t).pc.isTail = true) :
+    t < (step s c h).threads.length ∧ ((step s c h).thr t).kind = .proc i ∧ ((step s c h).thr t).pc.isTail = true := by
+  have hle := step_le s c h
+  refine ⟨Nat.lt_of_lt_of_le ht hle.tlen, ?_⟩
+  by_cases hself : c = .run t
+  · subst hself
+    unfold step
+    simp only
+    split
+    · exact runThread_tail _ t h _ i ht hk hp
+    · exact ⟨hk, hp⟩
+  · have hne : t ≠ Choice.tid s c := by
+      cases c with
+      | run u => simp only [Choice.tid]; intro e; exact hself (by rw [e])
+      | _ => simp only [Choice.tid]; exact Nat.ne_of_lt ht
+    rw [hle.tframe t ht hne]
+    exact ⟨hk, hp⟩
+
+/-- **A process thread that has left the dependency and launch phases never launches again**: in
+    every continuation it stays past both phases. A thread gets there by being skipped (a wait
+    ended with the condition unmet), by a start failure, or by the end of its run loop. -/
+theorem tail_forever {s s' : Sys} (hr : Reach s s') (t : Tid) (i : IId) (ht : t < s.threads.length)
+    (hk : (s.thr t).kind = .proc i) (hp : (s.thr t).pc.isTail = true) :
+    t < s'.threads.length ∧ (s'.thr t).kind = .proc i ∧ (s'.thr t).pc.isTail = true := by
+  induction hr with
+  | init => exact ⟨ht, hk, hp⟩
+  | step c hh _ ih => exact step_tail _ c hh t i ih.1 ih.2.1 ih.2.2
 
 end PC.Sup
